@@ -125,6 +125,71 @@ def class_params(cnode, constraints, where):
     return out
 
 
+# ------------------------------------------------------------------ lazy-update wiring
+def _n(node):
+    return "".join(ast.unparse(node).split())
+
+
+def read_lazy_wiring(repo):
+    """Checks (fail-closed) the control flow the hand model EFModel.C11_Lazy assumes:
+    * `_Parameter.__set__`: checker, store, then `Need_Update()` guarded ONLY by
+      `isinstance(instance, Updatable)` — no data-dependent condition, no early return;
+    * `Updatable.Need_Update` stores its argument; `needUpdate` defaults to True;
+    * `_Elastic.C` / `.S` getters: `if self.needUpdate: self._Update(); self.Need_Update(False)`
+      then return a copy of the stored matrix."""
+    pm = S.Module(os.path.join(repo, REL_PARAMS))
+    prm = pm.cls("_Parameter")
+    meths, _, _ = S.class_members(prm)
+    if "__set__" not in meths:
+        raise TranslateError("_Parameter.__set__ not found")
+    fn = meths["__set__"]
+    args = [a.arg for a in fn.args.args]
+    if len(args) != 3:
+        raise TranslateError("_Parameter.__set__ signature")
+    inst, val = args[1], args[2]
+    body = [st for st in fn.body if not (isinstance(st, ast.Expr) and isinstance(st.value, ast.Constant))]
+    where = "%s:%d _Parameter.__set__" % (REL_PARAMS, fn.lineno)
+    stored = notified = False
+    for st in body:
+        t = _n(st)
+        if t == "self._checker(%s)" % val:
+            if stored:
+                raise TranslateError("%s: the checker runs after the value is stored" % where)
+            continue
+        if isinstance(st, ast.Assign) and _n(st.targets[0]).startswith("%s.__dict__[" % inst) and _n(st.value) == val:
+            stored = True
+            continue
+        if isinstance(st, ast.If) and _n(st.test) == "isinstance(%s,Updatable)" % inst and not st.orelse \
+                and [_n(x) for x in st.body] == ["%s.Need_Update()" % inst]:
+            if not stored:
+                raise TranslateError("%s: Need_Update() is called before the value is stored" % where)
+            notified = True
+            continue
+        raise TranslateError("%s: statement `%s` is outside the modelled shape (checker; store; "
+                             "`if isinstance(instance, Updatable): instance.Need_Update()`) — a data-dependent guard or shortcut "
+                             "around Need_Update() breaks the lazy-update model" % (where, ast.unparse(st).splitlines()[0][:90]))
+    if not (stored and notified):
+        raise TranslateError("%s: the value is not stored or Need_Update() is not reached" % where)
+    um, up, _ = S.class_members(pm.cls("Updatable"))
+    if "Need_Update" not in um or "self.__needUpdate=value" not in [_n(x) for x in um["Need_Update"].body]:
+        raise TranslateError("Updatable.Need_Update does not store its argument")
+    if "needUpdate" not in up or "self.__needUpdate=True" not in _n(up["needUpdate"]):
+        raise TranslateError("Updatable.needUpdate does not default to True")
+    lm = S.Module(os.path.join(repo, REL))
+    _, props, _ = S.class_members(lm.cls("_Elastic"))
+    for name in ("C", "S"):
+        if name not in props:
+            raise TranslateError("_Elastic.%s getter not found" % name)
+        body = [st for st in props[name].body if not (isinstance(st, ast.Expr) and isinstance(st.value, ast.Constant))]
+        ok = (len(body) == 2 and isinstance(body[0], ast.If) and _n(body[0].test) == "self.needUpdate" and not body[0].orelse
+              and [_n(x) for x in body[0].body] == ["self._Update()", "self.Need_Update(False)"]
+              and isinstance(body[1], ast.Return) and _n(body[1].value) == "self.__%s.copy()" % name)
+        if not ok:
+            raise TranslateError("%s:%d _Elastic.%s getter is not `if self.needUpdate: self._Update(); self.Need_Update(False)` + return of a copy"
+                                 % (REL, props[name].lineno, name))
+    return {"set_line": fn.lineno, "unconditional": True}
+
+
 # ------------------------------------------------------------------ class interpretation
 class ClassRun:
     def __init__(self, mod, umod, cname, cfg):
